@@ -81,12 +81,20 @@ class Site:
         if getattr(self, "_shape", None) is not None:
             return self._shape
         b = self.body
+        detail = self.detail
+        # captured variables by value: `^node_count` -> what the constructing function bound it to
+        if b.kind == "Closure" and "^" in detail and getattr(b, "program", None) is not None:
+            try:
+                from .expr import resolve_upvar_text
+                detail = resolve_upvar_text(b.program, b, detail)
+            except Exception:  # noqa: BLE001
+                detail = self.detail
         names = set()
         for l, d in enumerate(b.locals):
             nm = d.get("name")
             if nm and (l > b.argc or b.kind == "Closure") and nm != "self":
                 names.add(nm)
-        for m in re.finditer(r"\^\*?([A-Za-z_]\w*)", self.detail):
+        for m in re.finditer(r"\^\*?([A-Za-z_]\w*)", detail):
             if m.group(1) != "self":
                 names.add(m.group(1))
         order = {}
@@ -95,14 +103,14 @@ class Site:
             w = m.group(0)
             if w not in names:
                 return w
-            pre = self.detail[max(0, m.start() - 2):m.start()]
-            post = self.detail[m.end():m.end() + 2]
+            pre = detail[max(0, m.start() - 2):m.start()]
+            post = detail[m.end():m.end() + 2]
             if pre.endswith(".") or pre.endswith("::") or post.startswith(":") or post.startswith("("):
                 return w
             if w not in order:
                 order[w] = "%%%d" % (len(order) + 1)
             return order[w]
-        self._shape = re.sub(r"[A-Za-z_]\w*", sub, self.detail)
+        self._shape = re.sub(r"[A-Za-z_]\w*", sub, detail)
         return self._shape
 
     def mac(self):
@@ -280,6 +288,39 @@ def guard_index_call(site):
     return None
 
 
+def guard_lt_len(site):
+    """T1: an element access `x[e]` (compiler bounds check or Index call) dominated by the test
+    `e < x.len()` on the same expression and the same object"""
+    from . import paths
+    x = site.extra
+    if site.kind == "bounds":
+        idx, ln = x.get("index"), x.get("len")
+    elif site.kind == "index":
+        a = x.get("args") or []
+        if len(a) != 2 or a[1][0] in ("agg",) or (a[1][0] == "call" and "Range" in a[1][1]):
+            return None
+        idx, ln = a[1], ("len", a[0])
+    else:
+        return None
+    if idx is None or ln is None:
+        return None
+    b = site.body
+    eb = ExprBuilder(b)
+    ci, cl = canon(idx), canon(ln)
+    for g in paths.guards(b, site.bb, eb):
+        if g[0] not in ("true", "false"):
+            continue
+        pos, c = paths.bool_atoms(g)
+        if c[0] != "bin":
+            continue
+        op, l, r = c[1], canon(c[2]), canon(c[3])
+        if (l, r) == (ci, cl) and ((op == "Lt" and pos) or (op == "Ge" and not pos)):
+            return "index expression is tested `< len` of the same object on every path to the access"
+        if (l, r) == (cl, ci) and ((op == "Gt" and pos) or (op == "Le" and not pos)):
+            return "index expression is tested `< len` of the same object on every path to the access"
+    return None
+
+
 def t1_common(site):
     """guards shared by every ledger user"""
     x = site.extra
@@ -287,6 +328,26 @@ def t1_common(site):
         a = x.get("args") or []
         if len(a) == 2 and a[1][0] == "agg" and a[1][1].endswith("RangeFull::RangeFull"):
             return "full-range slice `x[..]` cannot fail"
+        r = guard_index_call(site)
+        if r:
+            return r
+    if site.kind == "bounds":
+        r = guard_bounds(site)
+        if r:
+            return r
+    if site.kind in ("index", "bounds"):
+        r = guard_lt_len(site)
+        if r:
+            return r
+    if site.kind == "slice-api" and site.api and "split_at" in site.api:
+        a = x.get("args") or []
+        if len(a) == 2:
+            obj, mid = a
+            # x.split_at(x.len() / c), c >= 1, or x.split_at(min(x.len(), _)): mid <= len
+            if mid[0] == "bin" and mid[1] == "Div" and mid[2][0] == "len" and canon(mid[2][1]) == canon(obj) and mid[3][0] == "c" and mid[3][1] >= 1:
+                return "split point is len(x) / c of the split object (<= len)"
+            if mid[0] == "call" and mid[1].split("::")[-1] == "min" and any(y[0] == "len" and canon(y[1]) == canon(obj) for y in mid[2]):
+                return "split point is min(len(x), _) of the split object"
     return None
 
 
@@ -313,6 +374,35 @@ def site_guards(site):
         b = par
         depth += 1
     return out
+
+
+def t2_lookup(table, site):
+    """the audited entry for a site: by exact key, or - for a site in a closure / in a helper that
+    did not exist in the pinned tree (the key of such a body is not stable) - an entry of the same
+    kind and API under the same enclosing pinned function whose shape and guards match"""
+    ent = table.get(site.key)
+    if ent is not None:
+        return ent
+    b = site.body
+    prog = getattr(b, "program", None)
+    top = b
+    n = 0
+    while prog is not None and top is not None and top.kind == "Closure" and n < 6:
+        top = prog.bodies.get(top.parent)
+        n += 1
+    if top is None or top is b and "{closure" not in site.fn:
+        return None
+    parts = site.key.split("|")
+    for k, e in table.items():
+        kp = k.split("|")
+        if len(kp) < 3 or kp[0] != parts[0] or kp[2] != parts[2]:
+            continue
+        kfn = kp[1].split("::{closure")[0]
+        if kfn != top.path:
+            continue
+        if t2_match(e, site)[0]:
+            return e
+    return None
 
 
 def t2_match(ent, site, extra_text=""):
